@@ -160,12 +160,28 @@ def job_act(j):
     return {"out": np.asarray(out, F64).tolist()}
 
 
+def job_kbi(j):
+    """constraint._kbi on raw (solref, solimp, pos) with a given timestep and REFSAFE flag: cases [[s0, s1, d0, d1, width, mid, power, pos, h]]"""
+    from mujoco.mjx._src import constraint
+    m, mx, dx = cu_base()
+    flags = int(m.opt.disableflags) | (0 if j["refsafe"] else int(mujoco.mjtDisableBit.mjDSBL_REFSAFE))
+    a = jp.asarray(np.array(j["cases"], F64).reshape(-1, 9))
+
+    def one(row):
+        mm = mx.replace(opt=mx.opt.replace(timestep=row[8], disableflags=flags))
+        k, b, imp = constraint._kbi(mm, row[0:2], row[2:7], row[7])
+        return jp.stack([k, b, imp])
+
+    return {"out": np.asarray(jax.jit(jax.vmap(one))(a), F64).tolist()}
+
+
 # ------------------------------------------------------------------------------------------------- pipeline
 MODEL_FIELDS = ["body_mass", "body_inertia", "body_pos", "body_quat", "body_ipos", "body_iquat", "body_parentid", "jnt_type",
                 "jnt_pos", "jnt_axis", "jnt_bodyid", "jnt_stiffness", "jnt_range", "dof_damping", "dof_armature", "dof_frictionloss",
                 "qpos0", "qpos_spring", "geom_type", "geom_size", "geom_pos", "geom_quat", "geom_bodyid", "geom_condim",
                 "geom_friction", "geom_solref", "geom_solimp", "geom_margin", "geom_gap", "actuator_gainprm", "actuator_biasprm",
-                "actuator_gear", "actuator_trnid", "site_pos", "site_bodyid", "tendon_stiffness", "tendon_damping", "tendon_lengthspring"]
+                "actuator_gear", "actuator_trnid", "site_pos", "site_bodyid", "tendon_stiffness", "tendon_damping", "tendon_lengthspring",
+                "jnt_solref", "jnt_solimp", "dof_solref", "dof_solimp", "eq_solref", "eq_solimp", "eq_data"]
 
 
 def job_pipeline(j):
@@ -204,7 +220,7 @@ def job_pipeline(j):
     return out
 
 
-JOBS = {"cu": job_cu, "prim": job_prim, "euler": job_euler, "act": job_act, "pipeline": job_pipeline}
+JOBS = {"kbi": job_kbi, "cu": job_cu, "prim": job_prim, "euler": job_euler, "act": job_act, "pipeline": job_pipeline}
 req = json.load(sys.stdin)
 res = []
 for j in req["jobs"]:
